@@ -96,7 +96,11 @@ class FunctionEngine(CallsMixin, Engine):
             if pre is None:
                 raise Unsupported('old() without pre-state')
             s2 = pre.copy()
-            s2.env = dict(self.pre_env if self.pre_env is not None else pre.env)
+            if getattr(self, 'callee_env', None) is not None:
+                # clause of a callee contract: names are the callee's parameters
+                s2.env = dict(self.callee_env)
+            else:
+                s2.env = dict(self.pre_env if self.pre_env is not None else pre.env)
             s2.env.update({k: v for k, v in st.env.items() if k not in s2.env})
             v = self.eval(a[0], s2)
             if v.ty.is_container and v.loc is not None:
@@ -165,6 +169,16 @@ class FunctionEngine(CallsMixin, Engine):
             if name not in self.ghost_consts:
                 self.ghost_consts[name] = V(t, z3.Const('ghost!' + name, sort_of(t)))
             return self.ghost_consts[name]
+        cf = self.contract.get('funcs', {})
+        if f in cf:
+            argt, rett = cf[f]
+            key = ('cfunc', f)
+            if key not in self.ghost_consts:
+                self.ghost_consts[key] = z3.Function('ghostfn!' + f, *[sort_of(parse_type(t)) for t in argt],
+                                                     sort_of(parse_type(rett)))
+            fn = self.ghost_consts[key]
+            vals = [self.as_term(self.coerce(self.eval(x, st), parse_type(t), st), st) for x, t in zip(a, argt)]
+            return V(parse_type(rett), fn(*vals))
         if f in self.db.spec_funcs:
             return self.db.spec_funcs[f](self, [self.eval(x, st) for x in a], st)
         macros = self.contract.get('defs', {})
@@ -377,6 +391,8 @@ class FunctionEngine(CallsMixin, Engine):
                     val = self.new_cell(st, want, val.t)
             else:
                 val = self.coerce(val, want, st)
+        elif val.ty.is_container and val.ty.args and val.ty.args[0].kind == 'Bottom' and val.ty.kind in ('Set', 'Dict'):
+            raise Unsupported(f'untyped empty {val.ty.kind.lower()} assigned to `{name}`: declare it in the contract `locals`')
         elif val.ty.is_container and val.loc is None and val.t is not None:
             # value read out of another container: gets its own cell (copy semantics; aliasing with the source
             # element is not modelled -> mutation through it is refused, see store())
